@@ -12,7 +12,8 @@ static struct cs cs[MAXCS];
 static struct gp gp[MAXGP];
 static int ncs, ngp, noverlap;
 
-void orc_reset(void) { ncs = ngp = noverlap = 0; }
+static void orc_reset_cb(void);
+void orc_reset(void) { ncs = ngp = noverlap = 0; orc_reset_cb(); }
 
 int orc_cs_begin(int who)
 {
@@ -66,3 +67,79 @@ void orc_gp_done(int id, const char *what)
 int orc_overlaps(void) { return noverlap; }
 int orc_ncs(void) { return ncs; }
 int orc_ngp(void) { return ngp; }
+
+/* ---------------------------------------------------------------- callbacks */
+#define MAXCB 2048
+#define MAXBAR 256
+struct cb { int gp; uint64_t called, start, end; int count, who; };
+static struct cb cbs[MAXCB];
+static int ncb;
+static struct { uint64_t enter; int who; } bars[MAXBAR];
+static int nbar;
+
+int orc_cb_new(int who)
+{
+	if (ncb >= MAXCB)
+		usim_bug("oracle: too many callbacks");
+	memset(&cbs[ncb], 0, sizeof(cbs[0]));
+	cbs[ncb].who = who;
+	cbs[ncb].gp = orc_gp_call(who);
+	return ncb++;
+}
+
+void orc_cb_called(int cb) { cbs[cb].called = usim_seq(); }
+
+void orc_cb_start(int cb, const char *what)
+{
+	if (cb < 0 || cb >= ncb)
+		usim_fail("callback-wrong-head", "%s invoked with an rcu_head that was never registered (id %d)", what, cb);
+	if (++cbs[cb].count > 1)
+		usim_fail("callback-twice", "%s #%d (queued by thread %d) invoked %d times", what, cb, cbs[cb].who, cbs[cb].count);
+	cbs[cb].start = usim_seq();
+	orc_gp_done(cbs[cb].gp, what);
+}
+
+void orc_cb_end(int cb) { cbs[cb].end = usim_seq(); }
+
+int orc_barrier_enter(int who)
+{
+	if (nbar >= MAXBAR)
+		usim_bug("oracle: too many barriers");
+	bars[nbar].who = who;
+	bars[nbar].enter = usim_seq();
+	return nbar++;
+}
+
+void orc_barrier_return(int b)
+{
+	uint64_t now = usim_seq();
+	int i, covered = 0;
+	for (i = 0; i < ncb; i++) {
+		if (cbs[i].called && cbs[i].called < bars[b].enter) {
+			if (!cbs[i].end || cbs[i].end > now)
+				usim_fail("barrier-missed-callback",
+					"rcu_barrier() by thread %d (entered at #%lu, returned at #%lu) returned although callback #%d, whose call_rcu() by thread %d had returned at #%lu, has %s",
+					bars[b].who, (unsigned long) bars[b].enter, (unsigned long) now, i, cbs[i].who,
+					(unsigned long) cbs[i].called, cbs[i].start ? "not finished" : "not run");
+			if (cbs[i].end > bars[b].enter)
+				covered = 1;
+		}
+	}
+	if (covered)
+		usim_mark_nontrivial();
+}
+
+void orc_cb_final_check(const char *what)
+{
+	int i;
+	for (i = 0; i < ncb; i++)
+		if (cbs[i].count != 1)
+			usim_fail(cbs[i].count ? "callback-twice" : "callback-lost",
+				"%s: callback #%d queued by thread %d (call_rcu %s) ran %d times",
+				what, i, cbs[i].who, cbs[i].called ? "returned" : "did not return", cbs[i].count);
+}
+
+int orc_ncb(void) { return ncb; }
+int orc_cb_count(int cb) { return cbs[cb].count; }
+
+static void orc_reset_cb(void) { ncb = 0; nbar = 0; }
